@@ -45,6 +45,7 @@ func main() {
 		"x position in the answer {nothing sent, inside the headers, headers done, inside the data (sampled byte offsets; thorough: every offset), data line complete, frame complete} " +
 		"x framing {Content-Length, chunked, until-EOF, pipe} x {1, 3} calls pending x {0, 1} calls answered before the fault x caller context {none, cancel, deadline, transport timeout}; " +
 		"plus handshake scripts on all three clients (the event stream is up and no endpoint event comes; the initialize POST is accepted and never answered / never responded to / reset / answered 500 / by an error reply / by a result that does not parse; notifications/initialized is refused / reset; the child never answers initialize / answers an error / garbage / exits), each followed by Close() after the failed Initialize returned or while it is in flight (the peer answers after the Close), then the census incl. the peer's view of its event streams; " +
+		"plus one call stalled mid-stream (headers then silence / part of a frame / a stream or child that never answers) while other operations run on the same client — calls answered at once with 500 ms deadlines, Register / UnregisterNotificationHandler, SetRootsProvider, Close() — each completes regardless of the stalled call; " +
 		"plus retrying clients (WithRetry, back-off 3 s): a retryable failure of the first attempt (503 / reset / FIN) and the caller's context ending during the back-off (cancel / deadline), while the first or the second attempt is in flight, and a second attempt that is answered: return within 1 s of the context's end; " +
 		"plus requests of the server on the client side (roots/list and an unknown method on the Streamable listening stream / the legacy SSE stream / the child's stdout): the peer accepts the POST with the client's answer and stalls on it (no response / headers only / part of the body; a child that does not read), then Close(): the peer sees that POST's connection dropped within 2 s, census; " +
 		"plus the server half (raw TCP peers against the real Streamable HTTP and legacy SSE servers: handshake, listening stream, a tools/call blocking on its context; every connection then closed / reset; census), " +
@@ -440,6 +441,7 @@ func run(c *hk.Ctx) {
 		timing[name] = time.Since(ts).Seconds()
 	}
 	special("handshake", runHandshakes)
+	special("concurrent", runConcurrents)
 	special("backoff", runBackoffs)
 	special("srvAnswer", runSrvAnswers)
 	special("closeLive", runCloseLive)
